@@ -112,13 +112,17 @@ def rollCommon (times sides : Int) (dmin dmax : Option Int) (keepLH lowNum highN
     let num := sumWrap (nums.take pick.toNat)
     some ({ num := num, text := commonText nums pick times, nums := nums, pick := pick }, ws')
 
+/-- the face a bonus / penalty die takes: in min mode its lowest face, the digit 0 (rolled as 10) -/
+def cocFace (mode n : Int) : Int := if mode == -1 then 10 else n
+
 /-- the tens-dice loop of RollCoC: returns (shown texts, min, max, num10Exists) -/
 def cocLoop (mode : Int) : Nat → Int → Int → Bool → List Nat → Option ((List String × Int × Int × Bool) × List Nat)
   | 0, mn, mx, e, ws => some (([], mn, mx, e), ws)
   | k+1, mn, mx, e, ws =>
     match roll 10 mode ws with
     | none => none
-    | some (n, ws') =>
+    | some (n0, ws') =>
+      let n := cocFace mode n0
       if n == 10 then
         match cocLoop mode k mn mx true ws' with
         | none => none
